@@ -114,6 +114,43 @@ var chanInit = func() I { c := make(chan I, 1); c <- @N4@; return <-c }()
 var dependsOnDep = I(dep.Exported) + 1
 
 func pair() (I, I) { note("pair"); return 1, 2 }
+
+// a call through a value of a defined function type is a side effect too
+type handler func() I
+
+var hvar handler = func() I { return note("named-func-type-call") }
+var unusedNamedCall = hvar()
+var unusedNamedCall2 = (handler)(hvar)()
+
+// comma-ok initialisers: only the second variable is used
+var lookup = map[string]I{"k": @N4@}
+var unusedVal, usedOk = lookup["k"]
+var _, usedOk2 = lookup["z"]
+var usedVal3, unusedOk3 = lookup["k"]
+
+// byte/rune are aliases of uint8/int32 in method signatures
+type aliasW interface {
+	w(b byte, r rune, bs []byte, m map[rune]uint8) I
+}
+type aliasImpl struct{ n I }
+
+func (a aliasImpl) w(b uint8, r int32, bs []uint8, m map[int32]byte) I {
+	return a.n + I(b) + I(r) + I(len(bs)+len(m))
+}
+
+// a type declared inside a function literal of a generic function
+func litLocal[T any](v T) string {
+	f := func() interface{} {
+		type L struct{ x T }
+		return L{v}
+	}
+	g := func() interface{} {
+		type L struct{ y T }
+		var l L
+		return &l
+	}
+	return describeLocal(f()) + describeLocal(g())
+}
 func secret() string { return "secret" }
 
 //go:linkname linked prog/dep.linkTarget
@@ -184,6 +221,12 @@ func main() {
 	println("L " + itoa(linked(@N8@)) + " " + dep.CallBack(func() string { return "cb" }))
 	println("LT " + localTypes() + describeLocal(localM{3}))
 	println("D " + dep.ViaIface(dep.NewImpl(@N9@)) + dep.Describe(dep.Opaque()))
+	var aw interface{} = aliasImpl{@N2@}
+	if w, ok := aw.(aliasW); ok {
+		println("AW " + itoa(int(w.w(1, 2, []byte{3}, map[rune]uint8{4: 5}))))
+	}
+	println("OK " + btoa(usedOk) + btoa(usedOk2) + itoa(int(usedVal3)))
+	println("LL " + litLocal(I(@N3@)) + litLocal("s") + litLocal(aliasImpl{1}))
 	println("END")
 }
 `
